@@ -932,8 +932,8 @@ class Machine(object):
                     self.index.append((t.name, ii, c))
                 if isinstance(t, EccKeyT) and self.payload_faults(t, item, b):
                     self.index.append((t.name, ii, -1))
-        self.nseeded = 4000 if tier == "quick" else 200000
-        self.nreuse = 1500 if tier == "quick" else 60000
+        self.nseeded = 9000 if tier == "quick" else 200000
+        self.nreuse = 3500 if tier == "quick" else 60000
 
     def payload_faults(self, t, item, b):
         """ECC key files (clear DER): the members that carry a *nested* fixed-shape encoding - the SEC1 point, the raw
